@@ -1,0 +1,28 @@
+//go:build verif
+
+package propeller
+
+// Contracts for gocv (contract-based deductive verification, /verif).
+
+// encoding/binary varints: assumed contracts on the standard library.
+//@ extern func encoding/binary.PutUvarint
+//@   requires len(buf) >= 10
+//@   modifies buf[0..10]
+//@   ensures 1 <= result && result <= 10
+//@
+//@ extern func encoding/binary.Uvarint
+//@   ensures -10 <= result1 && result1 <= 10 && result1 <= len(buf)
+//@   ensures result1 <= 0 ==> result0 == 0
+
+//@ func PadMessage
+//@   props C19
+//@   arith int
+//@   requires numDataShards >= 1 && numDataShards < 1<<31 && len(msg) < 1<<40
+//@   ensures multiple: len(result) % (2*numDataShards) == 0
+//@   ensures fits: len(result) >= len(msg) + 1 && len(result) < len(msg) + 10 + 2*numDataShards
+//@   ensures body: exists v int :: 1 <= v && v <= 10 && v + len(msg) <= len(result) && (forall j int :: 0 <= j && j < len(msg) ==> result[v+j] == msg[j]) && (forall j int :: v + len(msg) <= j && j < len(result) ==> result[j] == 0)
+//@
+//@ func UnpadMessage
+//@   props C19
+//@   arith int
+//@   ensures ok: result1 == nil ==> len(result0) <= len(padded)
